@@ -692,7 +692,7 @@ class Gen:
                 return dict(k="dynlen", s=s, offset=off, cb=cb, cbit=cbit, cnt=cnt)
             if fk == "eop":
                 return dict(k="eop", s=s)
-            t = simple(std(BUINT, 8, None, True))
+            t = simple(std(BUINT, r.choice([8, 8, 8, 16]), None, True))
             return dict(k="endmarker", s=s, tdop=t, tval=r.choice([0, 255, 170]))
         return self.simple_dop(lenkeys, allow_dyn=True)
 
